@@ -15,7 +15,7 @@ PROPS = ['C09']
 REPLAY = {'driver': 'labels'}
 TRUSTED = [
     "int(str(i)) == i for exact ints; float(str(f)) == f (NaN maps to NaN: abstract float identity); str(s) is s for exact str; str() returns a str",
-    "str(True).lower() == 'true', str(False).lower() == 'false'; str(x).lower() of an already parsed bool behaves the same",
+    "str(True) == 'True', str(False) == 'False', str(True).lower() == 'true', str(False).lower() == 'false'; str(x).lower() of an already parsed bool behaves the same",
     "base64.b64decode(base64.b64encode(y).decode()) == y for bytes y",
     "type(x).__name__.upper() for x of exact type int/str/float/bool is 'INT'/'STR'/'FLOAT'/'BOOL'; enum.auto() numbers LabelType members 1..n in definition order",
     "wire form of a label value (pydantic model_dump(mode='json') / JSON): str/int/float/bool unchanged, bytes are UTF-8 decoded to str (may raise)",
@@ -53,7 +53,7 @@ def generate(src):
               ForAll([x_], Implies(Val.is_floatv(x_), float_(str_(x_)) == x_)),
               ForAll([x_], Implies(Val.is_strv(x_), str_(x_) == x_)),
               ForAll([x_], Val.is_strv(str_(x_))),
-              lower_(str_(Val.boolv(True))) == TRUE_S, lower_(str_(Val.boolv(False))) == FALSE_S,
+              lower_(str_(Val.boolv(True))) == TRUE_S, lower_(str_(Val.boolv(False))) == FALSE_S, str_(Val.boolv(True)) == STR.get("True"), str_(Val.boolv(False)) == STR.get("False"),
               ForAll([x_], Implies(Val.is_bytesv(x_), And(b64d(b64e(x_)) == x_, Val.is_strv(b64e(x_))))),
               ForAll([x_], Implies(Not(Val.is_bytesv(x_)), json_mode(x_) == x_)),
               ForAll([x_], Implies(Val.is_bytesv(x_), And(json_mode(x_) == utf8(x_), Val.is_strv(utf8(x_))))),
